@@ -52,6 +52,16 @@
 
 
 /**
+ * SNOOPY_DATASOURCE_NAME_MAX_SIZE
+ *
+ * Maximum length of a data source name in a message format tag, including
+ * the separating colon/terminating null character
+ */
+#define SNOOPY_DATASOURCE_NAME_MAX_SIZE 100
+
+
+
+/**
  * SNOOPY_DATASOURCE_MESSAGE_MAX_SIZE
  *
  * Maximum length of a string returned from any data source function,
